@@ -509,6 +509,23 @@ pub fn take_faults() -> Vec<String> {
     v
 }
 
+/// size recorded for the LIVE block that starts at `p` (None: not the start of a live block) — lets an oracle
+/// compare the capacity a `String`/`Vec` claims with what was really allocated for it
+pub fn block_size(p: usize) -> Option<usize> {
+    let _g = lock();
+    unsafe {
+        let t = &*std::ptr::addr_of!(T);
+        t.find(p).and_then(|i| {
+            let s = t.tab[t.active][i];
+            if s.state == ST_LIVE {
+                Some(s.size)
+            } else {
+                None
+            }
+        })
+    }
+}
+
 struct Restore(bool);
 impl Drop for Restore {
     fn drop(&mut self) {
